@@ -39,6 +39,18 @@ let () =
          | "IUV" -> let a = v3 () in let b = v3 () in let l = nf () in Printf.printf "%s\n" (p3 (uv_interp fops a b l))
          | "IVEC" -> let n = ni () in let a = List.init n (fun _ -> nf ()) in let b = List.init n (fun _ -> nf ()) in let l = nf () in
            Printf.printf "%s\n" (String.concat " " (List.map hex (vec_interp fops a b l)))
+         | "OBJ" -> let p0 = nf () in let c0 = nf () in
+           let ops = ref [] in
+           while !p < Array.length w do
+             (match next () with
+              | "M" -> let pp = nf () in let c = nf () in ops := PvModify (pp, c) :: !ops
+              | "W" -> let x = nf () in ops := PvWrap x :: !ops
+              | "D" -> let a = nf () in let b = nf () in ops := PvDist2 (a, b) :: !ops
+              | _ -> ())
+           done;
+           let (_, outs) = pv_run fops { pv_P = p0; pv_c = c0 } (List.rev !ops) in
+           let fl = List.concat outs in
+           Printf.printf "%s\n" (if fl = [] then "-" else String.concat " " (List.map hex fl))
          | _ -> Printf.printf "?\n")
       end
     done
